@@ -142,12 +142,12 @@ def r18c(chk, rid='R18.c'):
 
 
 def r18d(chk, rid='R18.d'):
-    chk.rule(rid, 'the number formatter decided by evaluation: CSSSerializer.do_css_Value (with _strip_zeros, resolved in the class) is evaluated on its syntax tree for representatives of every case its comparisons distinguish - zero, integral (small, huge), non-integral below and above magnitude one, each sign spelling, literals with one to six fractional digits - under omitLeadingZero on and off: the text denotes exactly the same real number, an explicit + is kept for non-zero values only, the leading zero is dropped only under the preference and only the one before the decimal point')
+    chk.rule(rid, 'the number formatter decided by evaluation: CSSSerializer.do_css_Value (with _strip_zeros, resolved in the class) is evaluated on its syntax tree for representatives of every case its comparisons distinguish - zero, integral (small, huge), non-integral below and above magnitude one, each sign spelling, literals with one to six fractional digits, and literals with seven (below half a millionth, where the formatted text is all zeros) - under omitLeadingZero on and off: the text denotes exactly the same real number, an explicit + is kept for non-zero values only, the leading zero is dropped only under the preference and only the one before the decimal point')
     chk.assume("R18.d: the branch structure of do_css_Value is decided for representatives of every case; '%f' formatting of the representatives is the interpreter's float arithmetic")
     from fractions import Fraction
 
     cases = []
-    for num in (0, 1, 7, 10, 100, 2 ** 53 + 1, 10 ** 15, 0.5, 0.05, 0.000001, 0.123456, 0.999999, 1.5, 10.5, 10.05, 100.000001, 1234.5678, 99999.999999):
+    for num in (0, 1, 7, 10, 100, 2 ** 53 + 1, 10 ** 15, 0.5, 0.05, 0.000001, 0.0000001, 0.0000004, 0.1234564, 0.123456, 0.999999, 1.5, 10.5, 10.05, 100.000001, 1234.5678, 99999.999999):
         for neg in (False, True):
             if num == 0:
                 cases += [(0, ''), (0, '+'), (0, '-')] if not neg else []
@@ -167,7 +167,12 @@ def r18d(chk, rid='R18.d'):
                 else:
                     sg, ip, dot, fp = mo.group(1), mo.group(2), mo.group(3), mo.group(4)
                     denotes = Fraction((sg if sg == '-' else '') + (ip or '0') + ('.' + fp if fp else ''))
-                    if denotes != Fraction(str(num)) and denotes != Fraction(num):
+                    exact = Fraction(str(num))
+                    if exact * 10 ** 6 != int(exact * 10 ** 6):
+                        # more than six fractional digits: the formatter rounds to six ('%f'), the text must be the nearest such number
+                        if abs(denotes - exact) > Fraction(5, 10 ** 7):
+                            problems.append(f'denotes {denotes}, not {num} rounded to six digits')
+                    elif denotes != exact and denotes != Fraction(num):
                         problems.append(f'denotes {denotes} instead of {num}')
                     if (sg == '+') != (sign == '+' and num != 0):
                         problems.append("explicit '+' " + ('lost' if sign == '+' else 'invented'))
@@ -206,6 +211,17 @@ def r18g(chk, rid='R18.g'):
     m = chk.repo.mod(rel)
     fn = m.get('ColorValue._setCssText')
     calls = [c for c in ast.walk(fn) if isinstance(c, ast.Call) and text(c.func).endswith('hls_to_rgb')]
+    rawname = 'raw'
+    if not calls:
+        # the conversion may live in a module-level helper that is handed the components: follow `helper(raw)`
+        for c in ast.walk(fn):
+            if isinstance(c, ast.Call) and isinstance(c.func, ast.Name) and m.has(c.func.id) and isinstance(m.get(c.func.id), ast.FunctionDef):
+                h = m.get(c.func.id)
+                for i, a in enumerate(c.args):
+                    if isinstance(a, ast.Name) and a.id == 'raw' and i < len(h.args.args):
+                        inner = [x for x in ast.walk(h) if isinstance(x, ast.Call) and text(x.func).endswith('hls_to_rgb')]
+                        if inner:
+                            calls, fn, rawname = inner, h, h.args.args[i].arg
     if len(calls) != 1 or len(calls[0].args) != 3:
         raise AnalysisError('ColorValue._setCssText: colorsys.hls_to_rgb call not found')
 
@@ -229,7 +245,7 @@ def r18g(chk, rid='R18.g'):
 
     hue = chain(calls[0].args[0])
     src = ' ; '.join(text(e) for e in hue)
-    if 'raw[0]' not in src:
+    if f'{rawname}[0]' not in src:
         raise AnalysisError(f'ColorValue._setCssText: hue argument `{text(calls[0].args[0])}` does not derive from raw[0]')
     bad = sorted({call_name(c) for e in hue for c in ast.walk(e) if isinstance(c, ast.Call) and call_name(c) in ('min', 'max', 'abs', 'int', 'round')})
     chk.ob(rid, rel, 'ColorValue._setCssText', 'the hue reaches colorsys.hls_to_rgb without clamping or truncation', not bad,
@@ -238,7 +254,7 @@ def r18g(chk, rid='R18.g'):
     chk.ob(rid, rel, 'ColorValue._setCssText', 'the hue is scaled from degrees to the unit circle (division by 360)', scaled, 'colorsys expects the hue as a fraction of the circle')
     l_chain = ' ; '.join(text(e) for e in chain(calls[0].args[1]))
     s_chain = ' ; '.join(text(e) for e in chain(calls[0].args[2]))
-    chk.ob(rid, rel, 'ColorValue._setCssText', 'lightness (third hsl() component) is passed second, saturation third', 'raw[2]' in l_chain and 'raw[1]' in s_chain and 'raw[1]' not in l_chain and 'raw[2]' not in s_chain, f'l <- {l_chain[:60]}; s <- {s_chain[:60]}', shape=True)
+    chk.ob(rid, rel, 'ColorValue._setCssText', 'lightness (third hsl() component) is passed second, saturation third', f'{rawname}[2]' in l_chain and f'{rawname}[1]' in s_chain and f'{rawname}[1]' not in l_chain and f'{rawname}[2]' not in s_chain, f'l <- {l_chain[:60]}; s <- {s_chain[:60]}', shape=True)
 
 
 def r18h(chk, rid='R18.h'):
